@@ -35,10 +35,10 @@ import (
 // kenv is one independent set of REAL kernel maps (plus the loaded DHCP fast
 // path program that reads them). One per worker; cleared between cases.
 type kenv struct {
-	k   *nativebpf.Kernel      // dhcp_fastpath object: maps + program (nil: kernel refused BPF)
-	nat map[string]*cebpf.Map  // subscriber_nat (created from nat44.o's map spec)
-	qos map[string]*cebpf.Map  // qos_egress, qos_ingress (from qos_ratelimit.o's map specs)
-	all map[string]*cebpf.Map  // every hash map the oracle dumps, by C name
+	k   *nativebpf.Kernel     // dhcp_fastpath object: maps + program (nil: kernel refused BPF)
+	nat map[string]*cebpf.Map // subscriber_nat (created from nat44.o's map spec)
+	qos map[string]*cebpf.Map // qos_egress, qos_ingress (from qos_ratelimit.o's map specs)
+	all map[string]*cebpf.Map // every hash map the oracle dumps, by C name
 }
 
 // the hash maps in which a subscriber can leave something behind
